@@ -151,7 +151,7 @@ FloatCase(a, b) ==
 ---------------------------------------------------------------------------
 (* Series key: subject and typed entity values, escaped and delimited.     *)
 (* Bytes are their real values: the buffer of a case is byte for byte the  *)
-(* buffer the real Series.Marshal must produce.                            *)
+(* buffer the real Series.Marshal produces (the harness compares them).    *)
 
 Delim == 124      \* entityDelimiter '|'
 Esc == 92         \* escape '\'
